@@ -102,6 +102,7 @@ type Gate struct {
 	MustPass bool     `json:"must_pass"`
 	Deps     []string `json:"deps,omitempty"`
 	Pos      token.Pos `json:"-"`
+	val      ssa.Value
 }
 
 type FnAnalysis struct {
@@ -112,6 +113,7 @@ type FnAnalysis struct {
 	resIdx int // index of verdict result, -1 none
 	resErr bool
 	Deps   *DepAnalysis
+	depth  int
 }
 
 func Analyze(fn *ssa.Function, spec AcceptSpec) *FnAnalysis {
@@ -531,6 +533,9 @@ func (a *FnAnalysis) Gates() []Gate {
 			if refs := v.Referrers(); refs == nil || len(*refs) == 0 {
 				continue
 			}
+			if bo, ok := v.(*ssa.BinOp); ok && (a.isInduction(bo.X) || a.isInduction(bo.Y)) {
+				continue // loop counter test: not a check of the input
+			}
 			if !isBool(v.Type()) {
 				c0 := &evalCtx{a: a, env: env{}, blk: b, guard: map[ssa.Value]bool{}}
 				if c0.evalNil(v) == tF {
@@ -575,7 +580,7 @@ func (a *FnAnalysis) Gates() []Gate {
 			if ex, ok := in.(*ssa.Extract); ok && !pos.IsValid() {
 				pos = ex.Tuple.Pos()
 			}
-			g := &Gate{Cond: cond.Desc, FailWhen: failVal, MustPass: must, Pos: pos}
+			g := &Gate{Cond: cond.Desc, FailWhen: failVal, MustPass: must, Pos: pos, val: v}
 			if a.Deps != nil {
 				g.Deps = a.Deps.Of(v)
 			}
@@ -587,12 +592,73 @@ func (a *FnAnalysis) Gates() []Gate {
 			byKey[k] = g
 		}
 	}
+	// a gate that is the verdict of a small unexported helper carries the helper's own gates
+	if a.depth < 2 {
+		var own []string
+		for k := range byKey {
+			own = append(own, k)
+		}
+		sort.Strings(own)
+		for _, ok := range own {
+			g := byKey[ok]
+			call, k := helperCall(g.val)
+			if call == nil || g.FailWhen {
+				continue // only when the helper's SUCCESS (nil error / true) is what the caller requires
+			}
+			f := call.Call.StaticCallee()
+			if !Inlinable(f) || f == fn {
+				continue
+			}
+			inlineBusy[f] = true
+			ha := Analyze(f, AcceptSpec{})
+			ha.depth = a.depth + 1
+			hg := ha.Gates()
+			delete(inlineBusy, f)
+			_ = k
+			var args []string
+			for _, arg := range call.Call.Args {
+				args = append(args, a.D.Val(arg))
+			}
+			for _, h := range hg {
+				cond := SubstParams(h.Cond, args)
+				key := fmt.Sprintf("%s|%v", cond, h.FailWhen)
+				if old, ok := byKey[key]; ok {
+					old.MustPass = old.MustPass || (g.MustPass && h.MustPass)
+					continue
+				}
+				byKey[key] = &Gate{Cond: cond, FailWhen: h.FailWhen, MustPass: g.MustPass && h.MustPass, Pos: g.Pos, Deps: g.Deps}
+			}
+		}
+	}
 	var out []Gate
 	for _, g := range byKey {
 		out = append(out, *g)
 	}
-	sort.Slice(out, func(i, j int) bool { return out[i].Cond < out[j].Cond })
+	sort.Slice(out, func(i, j int) bool {
+		if out[i].Cond != out[j].Cond {
+			return out[i].Cond < out[j].Cond
+		}
+		return !out[i].FailWhen && out[j].FailWhen
+	})
 	return out
+}
+
+// helperCall: the call (and result index) a gate value is the verdict of.
+func helperCall(v ssa.Value) (*ssa.Call, int) {
+	switch x := v.(type) {
+	case *ssa.Call:
+		return x, 0
+	case *ssa.Extract:
+		if c, ok := x.Tuple.(*ssa.Call); ok {
+			return c, x.Index
+		}
+	}
+	return nil, 0
+}
+
+func (a *FnAnalysis) isInduction(v ssa.Value) bool {
+	d := a.D.Val(v)
+	return strings.HasPrefix(d, "phi") || strings.HasPrefix(d, "(phi")
 }
 
 func unionStr(a, b []string) []string {
@@ -682,11 +748,34 @@ func (a *FnAnalysis) Bounds() []string {
 		if ind(bo.X) || ind(bo.Y) {
 			continue
 		}
-		s := c.Desc
-		if c.Neg {
-			s = "!" + s
+		set[c.Desc] = true
+	}
+	// bounds tested inside small unexported helpers count for their callers
+	if a.depth < 2 {
+		for _, b := range a.Fn.Blocks {
+			for _, in := range b.Instrs {
+				ci, ok := in.(ssa.CallInstruction)
+				if !ok {
+					continue
+				}
+				f := ci.Common().StaticCallee()
+				if ci.Common().IsInvoke() || !Inlinable(f) || f == a.Fn {
+					continue
+				}
+				inlineBusy[f] = true
+				ha := Analyze(f, AcceptSpec{})
+				ha.depth = a.depth + 1
+				hb := ha.Bounds()
+				delete(inlineBusy, f)
+				var args []string
+				for _, arg := range ci.Common().Args {
+					args = append(args, a.D.Val(arg))
+				}
+				for _, s := range hb {
+					set[SubstParams(s, args)] = true
+				}
+			}
 		}
-		set[s] = true
 	}
 	var out []string
 	for s := range set {
@@ -731,5 +820,31 @@ func (a *FnAnalysis) FactValuesAt(b *ssa.BasicBlock) []ssa.Value {
 	for k := range a.mustIn[b] {
 		out = append(out, k.v)
 	}
+	return out
+}
+
+// Conds lists every branch condition of the function in canonical form
+// (positive form; loop induction tests excluded).
+func (a *FnAnalysis) Conds() []string {
+	set := map[string]bool{}
+	for _, b := range a.Fn.Blocks {
+		if _, reached := a.mustIn[b]; !reached || len(b.Instrs) == 0 {
+			continue
+		}
+		ifi, ok := b.Instrs[len(b.Instrs)-1].(*ssa.If)
+		if !ok {
+			continue
+		}
+		c := a.D.CanonCond(ifi.Cond)
+		if strings.HasPrefix(c.Desc, "lt(phi") || strings.HasPrefix(c.Desc, "lt((phi") || strings.Contains(c.Desc, "next(range") {
+			continue
+		}
+		set[c.Desc] = true
+	}
+	var out []string
+	for s := range set {
+		out = append(out, s)
+	}
+	sort.Strings(out)
 	return out
 }
